@@ -63,12 +63,13 @@ def readU32 (bs : Bytes) : Option (Nat × Bytes) :=
 def readGuid (bs : Bytes) : Option (Bytes × Bytes) :=
   if bs.length < 16 then none else some (efiSwap (bs.take 16), bs.drop 16)
 
-/-- go: readSizedArray after the size has been read: `make([]byte, n)` then ONE `r.Read`, whose short
-    count is ignored — missing bytes stay zero; an empty buffer is an error only when n > 0. -/
+/-- go: readSizedArray after the size has been read (repaired, commits 0790b01/0f6de9c): `readExact` —
+    nothing is read for n = 0; otherwise all n bytes must be there (io.ReadFull), a short body is an
+    error. -/
 def readN (n : Nat) (bs : Bytes) : Option (Bytes × Bytes) :=
   if n = 0 then some ([], bs)
-  else if bs.isEmpty then none
-  else some (bs.take n ++ List.replicate (n - (bs.take n).length) 0, bs.drop n)
+  else if bs.length < n then none
+  else some (bs.take n, bs.drop n)
 
 /-- go: ByteSizedCStr.Unmarshal -/
 def readCStr (bs : Bytes) : Option (Bytes × Bytes) :=
